@@ -63,11 +63,11 @@ func init() {
 		for _, jwt := range []bool{false, true} {
 			p := Profile{JWTAccess: jwt, RTLifespan: 7200}
 			specs = append(specs, FamSpec{Prop: "C08", Profile: p, Depth: depth, MaxGrants: 2, Grants: grants,
-				RedeemBy: []string{"owner"}, RefreshBy: []string{"owner"}, RevokeBy: []string{"owner", "other", "casevariant", "badsecret"}, Hints: []string{"", "access_token", "refresh_token", "garbage"},
+				RedeemBy: []string{"owner"}, RefreshBy: []string{"owner"}, RevokeBy: []string{"owner", "other", "casevariant", "badsecret"}, Hints: []string{"", "access_token", "refresh_token", "garbage", "id_token", "authorize_code"},
 				Advances: []int{3700}})
 		}
 		r.Bounds = map[string]any{"history_depth": depth, "max_grants": 2, "strategies": []string{"hmac", "jwt"},
-			"alphabet": "grant(code A, hybrid code+token A, password A, code P) redeem(owner) refresh(owner) revoke(every token ever seen x caller owner|other|badsecret x hint none|access_token|refresh_token|garbage) advance(3700s)"}
+			"alphabet": "grant(code A, hybrid code+token A, password A, code P) redeem(owner) refresh(owner) revoke(every token ever seen x caller owner|other|badsecret x hint none|access_token|refresh_token|garbage|id_token|authorize_code) advance(3700s)"}
 		r.Rule = "explicit-state BFS over API histories; revocation is attempted on tokens in every liveness state (live, rotated, revoked, killed, expired) reached by the search; each transition is followed by introspection of every token and, where the statement says 'changes nothing', by equality of the complete store dump"
 		r.Assumptions = []string{"model: owner revocation of a live token kills it and the token issued alongside it; other tokens of the same grant are not pinned (adopted from introspection); foreign client => unauthorized_client and unchanged store; failed client authentication => unchanged store; already-invalid tokens => success and unchanged store"}
 		famSearch(r, specs)
@@ -87,13 +87,13 @@ func init() {
 					}
 					p := Profile{JWTAccess: jwt, RTLifespan: 7200, DisableRTValidation: dis, ScopeStrategy: ss}
 					specs = append(specs, FamSpec{Prop: "C09", Profile: p, Depth: depth, MaxGrants: 2, Grants: grants,
-						RedeemBy: []string{"owner"}, RefreshBy: []string{"owner"}, RevokeBy: []string{"owner"}, Hints: []string{""},
+						RedeemBy: []string{"owner"}, RefreshBy: []string{"owner", "other"}, RevokeBy: []string{"owner"}, Hints: []string{""},
 						Advances: []int{3700}, C09: true})
 				}
 			}
 		}
 		r.Bounds = map[string]any{"history_depth": depth, "max_grants": 2, "configs": "hmac x {rt validation on,off} x {hierarchic,wildcard,exact}; jwt x {on,off} x hierarchic",
-			"alphabet": "grant(code, hybrid code+token, password, device, client_credentials, oidc code) redeem refresh revoke advance(3700s); in every reached state: every token and its mutants x hint x required scopes x caller credential"}
+			"alphabet": "grant(code, hybrid code+token, password, device, client_credentials, oidc code) redeem refresh(owner|foreign client) revoke advance(3700s); in every reached state: every token and its mutants x hint x required scopes x caller credential"}
 		r.Rule = "explicit-state BFS over API histories; in every reached state every token ever seen (plus mutants) is introspected under the whole hint x scope x caller grid and compared with the model"
 		r.Assumptions = []string{"model liveness: issued, unexpired (1s don't-care window around expiry), not rotated/revoked/killed", "scope coverage judged by an independent reimplementation of the three scope strategies"}
 		famSearch(r, specs)
